@@ -202,7 +202,7 @@ def case_term(inf_name, line, conv, types, obs, end):
 
 # ------------------------------------------------------------------ the check
 def run(ctx):
-    ctx.prove(["Props/C04.vo", "Run/eval_C04.vo"])
+    ctx.prove(["Props/C04.vo", "Run/eval_C04.vo"], extra_props=["Compose"])            # + composition C07 => C04 (no_collision discharged)
     ctx.trusted_base += [
         "lib/c04gen.py + checks/c04.py (package generator/renderer, template data as Coq term, command-line grammar, oracle, classification of exit status/stderr)",
         "lib/projlib.py (project layout, probe package printing CALL lines, three ways of running)",
